@@ -29,7 +29,7 @@ type C20Task struct {
 }
 
 type C20Plan struct {
-	Mode  string    `json:"mode"` // "sched" (deterministic baton passing at the seams) | "race" (free-running under the race detector)
+	Mode  string    `json:"mode"` // "sched" (deterministic baton passing at the seams) | "sched-fine" (the same with a yield before every statement of the library, in an AST-rewritten scratch copy) | "race" (free-running under the race detector)
 	Tasks []C20Task `json:"tasks"`
 	Sched []int     `json:"sched,omitempty"` // scheduler choices: index into the runnable set at each yield
 	// race mode
@@ -39,6 +39,9 @@ type C20Plan struct {
 }
 
 type C20 struct{}
+
+// stmtHookSetter is non-nil only in the binary built with -tags astyield (see c20_ast_on.go).
+var stmtHookSetter func(func())
 
 func (C20) ID() string           { return "C20" }
 func (C20) Title() string        { return "caller tasks sharing key objects: seeded baton-passing scheduler at the seams + free-running stage under the race detector" }
@@ -53,12 +56,12 @@ func (C20) Runs(tier string) int {
 func (C20) Meta() core.Meta {
 	return core.Meta{
 		Level: "exploration",
-		Rule: "sched case = 2..8 tasks (Encrypt or Decrypt, own plaintext/tape/destination/source) sharing ONE recipient and ONE identity object per key; exactly one task runs at a time and every seam call (rand.Read before and after the draw, dst.Write, src.Read) is a yield at which the plan's PRNG-chosen schedule decides who continues; oracle: each task's output bytes / plaintext equal what the same task yields alone with fresh objects. race case = 2..32 free-running goroutines (GOMAXPROCS 2/4/16, start barrier, Gosched perturbation from the plan) doing Encrypt+Decrypt over the same shared objects in a -race build; any race report is a violation, results must round-trip. Non-trivial = at least one task switch between two tasks using the same key object; distinct = distinct task-switch sequences (sched) / distinct (goroutines, procs, seed) (race).",
-		Assumptions: []string{"sched stage: code between two seam calls runs atomically, so interference inside one Wrap/Unwrap is only explored by the race stage", "race stage is NOT schedule-controlled (it is the detector the property names); its replay re-runs the workload and is not exactly repeatable", "the race detector reports no false positives"},
+		Rule: "sched case = 2..8 tasks (Encrypt or Decrypt, own plaintext/tape/destination/source) sharing ONE recipient and ONE identity object per key; exactly one task runs at a time and every seam call (rand.Read before and after the draw, dst.Write, src.Read) is a yield at which the plan's PRNG-chosen schedule decides who continues; oracle: each task's output bytes / plaintext equal what the same task yields alone with fresh objects. sched-fine case = the same with 2..4 tasks in a binary built from a scratch copy of the tree in which cmd/astyield inserted a yield before every statement of age.go, primitives.go, x25519.go, scrypt.go, agessh/agessh.go, internal/stream, internal/format and armor (718 points): statement-granular, still replayable schedules. race case = 2..32 free-running goroutines (GOMAXPROCS 2/4/16, start barrier, Gosched perturbation from the plan) doing Encrypt+Decrypt over the same shared objects in a -race build; any race report is a violation, results must round-trip. Non-trivial = at least one task switch between two tasks using the same key object; distinct = distinct task-switch sequences (sched) / distinct (goroutines, procs, seed) (race).",
+		Assumptions: []string{"sched stage: code between two seam calls runs atomically; the sched-fine stage removes that limit for the library's own statements (not for the standard library or x/crypto below them)", "the sched-fine stage runs the library with inserted yield calls: the rewritten copy is checked to build, and its outputs are compared with runs of the same binary alone", "race stage is NOT schedule-controlled (it is the detector the property names); its replay re-runs the workload and is not exactly repeatable", "the race detector reports no false positives"},
 		Real:        []string{"filippo.io/age Encrypt/Decrypt", "X25519/scrypt/ssh-ed25519/ssh-rsa recipients and identities shared between tasks", "internal/stream"},
 		Stub:        []string{"task scheduler (baton passing)", "per-task tape behind one routed crypto/rand.Reader", "per-task destination and source"},
 		FaultKinds:  []string{},
-		Probes:      []string{"probe.task_switches", "probe.switch_inside_wrap", "probe.shared_x25519", "probe.shared_scrypt", "probe.shared_ssh_ed25519", "probe.shared_ssh_rsa", "probe.race_runs", "probe.race_goroutines", "probe.race_detector_missing"},
+		Probes:      []string{"probe.task_switches", "probe.switch_inside_wrap", "probe.shared_x25519", "probe.shared_scrypt", "probe.shared_ssh_ed25519", "probe.shared_ssh_rsa", "probe.race_runs", "probe.race_goroutines", "probe.race_detector_missing", "probe.statement_level_schedules", "probe.statement_yields"},
 	}
 }
 
@@ -80,7 +83,13 @@ func (C20) Generate(r *core.RNG, tier string, idx uint64) interface{} {
 		return p
 	}
 	p.Mode = "sched"
+	if idx%5 == 1 || idx%5 == 3 {
+		p.Mode = "sched-fine"
+	}
 	n := r.Range(2, 8)
+	if p.Mode == "sched-fine" {
+		n = r.Range(2, 4)
+	}
 	for i := 0; i < n; i++ {
 		t := C20Task{Op: []string{"enc", "enc", "dec"}[r.Intn(3)]}
 		t.File.PSeed = r.U64() % 100000
@@ -92,6 +101,15 @@ func (C20) Generate(r *core.RNG, tier string, idx uint64) interface{} {
 		p.Tasks = append(p.Tasks, t)
 	}
 	m := r.Range(5, 120)
+	if p.Mode == "sched-fine" {
+		m = r.Range(50, 1500)
+		for i := range p.Tasks {
+			if p.Tasks[i].File.PLen > 70000 {
+				p.Tasks[i].File.PLen = 70000
+				p.Tasks[i].Segs = lib.GenSegs(r, 70000)
+			}
+		}
+	}
 	for i := 0; i < m; i++ {
 		p.Sched = append(p.Sched, r.Intn(8))
 	}
@@ -258,6 +276,18 @@ func (e C20) Execute(plan interface{}, c *core.Ctx) *core.Verdict {
 	if p.Mode == "race" {
 		return e.execRace(p, c)
 	}
+	fine := p.Mode == "sched-fine"
+	if fine && stmtHookSetter == nil {
+		bin := os.Getenv("AGESIM_AST_BIN")
+		if bin == "" {
+			return core.Fail("harness", "sched-fine stage needs the AST-instrumented binary (AGESIM_AST_BIN; use ./check C20 ...)")
+		}
+		v, err := core.RemoteExecute(bin, "C20", p, c)
+		if err != nil {
+			return core.Fail("harness", "%v", err)
+		}
+		return v
+	}
 	// alone results (fresh objects, sequential)
 	type outcome struct {
 		out []byte
@@ -279,8 +309,15 @@ func (e C20) Execute(plan interface{}, c *core.Ctx) *core.Verdict {
 			alone[i] = outcome{res.Released, res.ErrText()}
 		}
 	}
-	// together, under the plan's schedule, sharing objects
+	// together, under the plan's schedule, sharing objects (created up front: a task must never be parked
+	// by the scheduler while it holds the lock of the object table)
 	so := &sharedObjs{rec: map[string]age.Recipient{}, ids: map[string]age.Identity{}}
+	for _, t := range p.Tasks {
+		for _, k := range t.File.Keys() {
+			so.recipient(k)
+			so.identity(k)
+		}
+	}
 	s := &scheduler{yielded: make(chan *schedTask), choices: p.Sched, log: c.Log}
 	together := make([]outcome, len(p.Tasks))
 	old := rand.Reader
@@ -351,7 +388,15 @@ func (e C20) Execute(plan interface{}, c *core.Ctx) *core.Verdict {
 			}
 		}()
 	}
+	if fine {
+		stmtHookSetter(func() { s.yield("stmt") })
+	}
 	s.loop()
+	if fine {
+		stmtHookSetter(nil)
+		c.Stats.Inc("probe.statement_level_schedules")
+		c.Stats.Add("probe.statement_yields", int64(len(s.trace)))
+	}
 	switches, shared := 0, 0
 	for i := 1; i < len(s.trace); i++ {
 		if s.trace[i] != s.trace[i-1] {
@@ -376,7 +421,7 @@ func (e C20) Execute(plan interface{}, c *core.Ctx) *core.Verdict {
 		_ = st
 	}
 	c.Log.Add("schedule trace: %v", s.trace)
-	c.Stats.Eval(fmt.Sprintf("sched|%v", s.trace), switches > 0 && shared > 0)
+	c.Stats.Eval(fmt.Sprintf("%s|%v", p.Mode, s.trace), switches > 0 && shared > 0)
 	for i := range p.Tasks {
 		if together[i].err != alone[i].err || !bytes.Equal(together[i].out, alone[i].out) {
 			return core.Fail("C20.result_differs", "task %d (%s %s) run concurrently with %d others sharing key objects (task order %v) gives a different result than alone: %d bytes/%s vs %d bytes/%s, first difference at byte %d",
